@@ -396,13 +396,13 @@ func body(s *simrt.Sim, tier string) {
 		a := fmt.Sprintf("origin%d:80", i+1)
 		w.origins = append(w.origins, a)
 	}
-	// Workload variant (out of band, one run in five): the local origin cluster
+	// Workload variant (out of band, one run in fifty): the local origin cluster
 	// and the remote origin clusters are REAL origins (blobserver incl. its
 	// replicate-to-remote handler and the cluster client's UploadBlob, CAStore,
 	// refresher, testfs backends); only the remote build-index stays scripted,
 	// and it judges "asked to store the tag" against what the remote origins
 	// really hold on disk.
-	realOrigins := s.Tape.Variant%5 == 4 || os.Getenv("KSIM_C33_REAL") != ""
+	realOrigins := s.Tape.Variant%50 == 4 || os.Getenv("KSIM_C33_REAL") != ""
 	if !realOrigins {
 		for _, a := range w.origins {
 			hn.Register(a, srvNode, w.originHandler(a))
@@ -590,11 +590,20 @@ func body(s *simrt.Sim, tier string) {
 				wg.Add(1)
 				s.GoNode(c.node, "replicate-healthy", func() {
 					defer wg.Done()
+					healthySince := s.Now()
 					for {
 						from := s.Now()
 						err := execOnce(tr, c.ex, tr.task())
 						if err == nil {
 							break
+						}
+						// Real origins remember a failed backend fetch for their
+						// error TTL (15 s) and answer from that memory: failures
+						// caused by the fault phase may echo for a while after it.
+						if realOrigins && s.Now()-healthySince < 2*time.Minute {
+							s.Probe("healthy_exec_hit_by_remembered_error")
+							simrt.Sleep(5 * time.Second)
+							continue
 						}
 						// an injected task pause lets client timeouts expire: not the servers' fault
 						if !s.PausedDuring(from, s.Now()) {
